@@ -83,6 +83,13 @@ pub fn opt_piece(q: &mut Q, c: &Option<Curve2>, s: f64) -> Value {
         Some(c) => { let mut o = piece(q, c, s); o["some"] = json!(true); o }
     }
 }
+pub const QR: f64 = 16384.0;
+pub fn qptsr2(q: &mut Q, pts: &[Point2], s: f64) -> Vec<Vec<i64>> {
+    pts.iter().map(|p| vec![q.q(p.x / s, QR), q.q(p.y / s, QR), 0]).collect()
+}
+pub fn qptsr3(q: &mut Q, pts: &[Point3], s: f64) -> Vec<Vec<i64>> {
+    pts.iter().map(|p| vec![q.q(p.x / s, QR), q.q(p.y / s, QR), q.q(p.z / s, QR)]).collect()
+}
 fn lval(l2: i64, e: i64, s: f64) -> f64 {
     nudge(l2 as f64 / 2.0 * s, e)
 }
@@ -166,6 +173,58 @@ pub fn exec(rec: &Value, st: &mut State) -> Value {
                 st.slots.insert("cur".into(), Box::new((n, s)));
             }
             json!({"r": out, "finite": q.finite})
+        }
+        // ---------------- C05
+        "resample" => {
+            let dim = gi(rec, "dim");
+            let n = gi(rec, "n");
+            let s = scale_of(rec);
+            let mode = match gs(rec, "mode") {
+                "count" => engeom::Resample::ByCount(n as usize),
+                "spacing" => engeom::Resample::BySpacing(n as f64 / 2.0 * s),
+                _ => engeom::Resample::ByMaxSpacing(n as f64 / 2.0 * s),
+            };
+            if dim == 2 {
+                let (_, c) = build2(rec);
+                let c = c.expect("root curve");
+                match c.resample(mode) {
+                    Ok(r) => json!({"ok": true, "verts": qptsr2(&mut q, r.points(), s), "closed": r.is_closed(), "src_closed": c.is_closed(), "finite": q.finite}),
+                    Err(_) => json!({"ok": false, "finite": true}),
+                }
+            } else {
+                let (_, c) = build3(rec);
+                let c = c.expect("root curve");
+                let r = c.resample(mode);
+                json!({"ok": true, "verts": qptsr3(&mut q, r.points(), s), "closed": false, "src_closed": false, "finite": q.finite})
+            }
+        }
+        "simplify" => {
+            let dim = gi(rec, "dim");
+            let s = scale_of(rec);
+            let e = gi(rec, "e4") as f64 / 4.0 * s;
+            if dim == 2 {
+                let (_, c) = build2(rec);
+                let c = c.expect("root curve");
+                let r = c.simplify(e);
+                json!({"src": qptsr2(&mut q, c.points(), s), "src_closed": c.is_closed(), "verts": qptsr2(&mut q, r.points(), s), "closed": r.is_closed(), "finite": q.finite})
+            } else {
+                let (_, c) = build3(rec);
+                let c = c.expect("root curve");
+                let r = c.simplify(e);
+                json!({"src": qptsr3(&mut q, c.points(), s), "src_closed": false, "verts": qptsr3(&mut q, r.points(), s), "closed": false, "finite": q.finite})
+            }
+        }
+        "fill_gaps" => {
+            let dim = gi(rec, "dim");
+            let s = scale_of(rec);
+            let m = gi(rec, "m2") as f64 / 2.0 * s;
+            if dim == 2 {
+                let r = engeom::common::points::fill_gaps(&pts2(rec, "pts", s), m);
+                json!({"verts": qptsr2(&mut q, &r, s), "finite": q.finite})
+            } else {
+                let r = engeom::common::points::fill_gaps(&pts3(rec, "pts", s), m);
+                json!({"verts": qptsr3(&mut q, &r, s), "finite": q.finite})
+            }
         }
         _ => json!({"unknown_op": true}),
     }
